@@ -37,6 +37,8 @@ def run_chunk(vh, infile, ids, mode, stall=45, first=180):
                 i = int(m.group(1))
                 if m.group(4) == "true":
                     results[i] = (int(m.group(2)), int(m.group(3)))
+                elif m.group(4) == "changed":
+                    crashes.append((i, "behaviour-changed: after this input the mempool check refuses a normally priced payment or accepts one below the configured minimal fee", -1))
                 else:
                     crashes.append((i, "application-closed", -1))
                 done.append(i)
